@@ -108,14 +108,19 @@ func envConfig() string { return os.Getenv("VERIF_W11_CONFIG") }
 func World(prop string) simrun.World {
 	return func(r *simrun.Run) {
 		w := &world{r: r, k: r.K, t: r.T}
-		cfg := w.t.Choice(4) // 0: table, 1..3: nfs
+		cfg := w.t.Choice(5) // 0: table, 1..3: nfs, 4: concurrent lock table
 		switch envConfig() {
 		case "table":
 			cfg = 0
 		case "nfs":
 			cfg = 1
+		case "concurrent":
+			cfg = 4
 		}
-		if cfg == 0 {
+		if cfg == 4 {
+			r.Count("runs_concurrent", 1)
+			runConcurrent(w)
+		} else if cfg == 0 {
 			r.Count("runs_table", 1)
 			runTable(w)
 		} else {
